@@ -5,7 +5,7 @@ backend passes as --st_checkpoint_dir), executes one command, acknowledges it, a
 
     cmd_<n>  = {"op": "emit", "report": {...}}   -> write a checkpoint, Reporter()(**report), ack
                {"op": "exit"}                    -> ack, exit code 0
-               {"op": "fail"}                    -> ack, exit code 1
+               {"op": "fail"}                    -> ack, exit code 1   ("how": "signal" -> ack, killed by SIGKILL)
     ack_<n>  = written after the command has taken effect (for exit / fail: immediately before the process ends)
 
 A resumed run continues with the first command that has no acknowledgement yet."""
@@ -60,6 +60,10 @@ def main():
             sys.exit(0)
         elif cmd["op"] == "fail":
             ack(ctl, n, "ok")
+            if cmd.get("how") == "signal":       # dies like a process hit by the OOM killer: negative return code
+                import signal
+                os.kill(os.getpid(), signal.SIGKILL)
+                time.sleep(5)
             sys.exit(1)
         n += 1
         deadline = time.time() + 120.0
